@@ -291,6 +291,7 @@ type served struct {
 	body     *scriptBody
 	trailers http.Header
 	panicVal any
+	stuck    bool // ServeHTTP had not returned when the watchdog fired
 	ctxDone  bool // the context the handler saw is done after return
 	lateR    int64
 	lateW    int64
@@ -316,10 +317,15 @@ func (c *ctxCapture) get() context.Context {
 // serve runs handler.ServeHTTP with full recording; panics are recovered and recorded.
 func serve(h http.Handler, req *http.Request, body *scriptBody, w *recWriter, done *atomic.Bool, noFlusher bool) (res served) {
 	res.w, res.body = w, body
-	func() {
+	// ServeHTTP runs on its own goroutine under a watchdog: both peers are scripted and never block for long,
+	// so a call that has not returned after serveWatchdog is recorded as stuck (C11) and abandoned.
+	finished := make(chan any, 1)
+	go func() {
+		var pv any
+		defer func() { finished <- pv }()
 		defer func() {
 			if r := recover(); r != nil {
-				res.panicVal = r
+				pv = r
 				if os.Getenv("VERIF_STACK") != "" {
 					fmt.Fprintf(os.Stderr, "panic: %v\n%s\n", r, debug.Stack())
 				}
@@ -331,7 +337,15 @@ func serve(h http.Handler, req *http.Request, body *scriptBody, w *recWriter, do
 			h.ServeHTTP(w, req)
 		}
 	}()
+	select {
+	case pv := <-finished:
+		res.panicVal = pv
+	case <-time.After(serveWatchdog):
+		res.stuck = true
+	}
 	res.trailers = w.finish()
 	done.Store(true)
 	return res
 }
+
+const serveWatchdog = 45 * time.Second
